@@ -1,4 +1,6 @@
-import AndaVerif.Proofs.Bm25Basic
+import AndaVerif.Proofs.Bm25History
+import AndaVerif.Proofs.Bm25Flush
+import AndaVerif.Proofs.Bm25Score
 /-
 C11 — Full-text index retrieves exactly the matching documents, ranked stably.
 
@@ -23,6 +25,159 @@ theorem counters_consistent (ops : List Op) :
 example :
     let s := run Index.empty [.insert 1 [(0, 1), (1, 2)], .insert 2 [(1, 1)], .remove 1 [(5, 1)], .insert 1 [(2, 4)], .purge [2]]
     s.totalTokens = 4 ∧ s.docTokens = [(1, 4)] := by decide
+
+/-! ### retrieval: term queries -/
+
+/-- After **every** history (inserts, removes with arbitrary text, idempotent replays, re-inserts,
+purges) a term query returns exactly the live documents that either contain a token of the query in
+the text they were last inserted with, or for which a `remove` with non-original text left an entry
+under such a token (`Ghost.stale`). -/
+theorem term_general (ops : List Op) (toks : List Nat) (i : Nat) :
+    let s := run Index.empty ops
+    let g := grun Ghost.init ops
+    i ∈ termIds s toks ↔ (g.cur i).isSome = true ∧ ∃ t ∈ toks, (g.has i t = true ∨ g.stale i t = true) := by
+  intro s g
+  have h : Rep s g := Rep.init.run ops
+  rw [mem_termIds, h.live i]
+  constructor
+  · rintro ⟨hl, t, ht, he⟩
+    rw [hasEntry_eq, h.entry t i, Bool.or_eq_true] at he
+    exact ⟨hl, t, ht, he⟩
+  · rintro ⟨hl, t, ht, he⟩
+    refine ⟨hl, t, ht, ?_⟩
+    rw [hasEntry_eq, h.entry t i, Bool.or_eq_true]
+    exact he
+
+theorem term_nodup (s : Index) (toks : List Nat) : (termIds s toks).Nodup := nodup_termIds s toks
+
+/-- The property's reading: a term query returns exactly the live documents whose current text
+contains a token of the query. **False of the code** (and of the model, which mirrors it). -/
+def term_exact_full : Prop :=
+  ∀ (ops : List Op) (toks : List Nat) (i : Nat),
+    i ∈ termIds (run Index.empty ops) toks ↔
+      ∃ T, (grun Ghost.init ops).cur i = some T ∧ ∃ t ∈ toks, t ∈ T
+
+/-- The replay of the finding `stale-posting-visible-after-reinsert` (tokens numbered as by the harness:
+alpha 0, beta 1, delta 3, fox 5, known 7, well 8):
+`ins 2 "alpha fox Beta fox beta"; rem 2 "well-known alpha"; ins 2 "delta foxes delta"; search "Beta"` returns
+document 2, whose current text has no `beta`. -/
+theorem term_exact_counterexample : ¬ term_exact_full := by
+  intro h
+  have hm : 2 ∈ termIds (run Index.empty
+      [.insert 2 [(0, 1), (1, 2), (5, 2)], .remove 2 [(0, 1), (7, 1), (8, 1)], .insert 2 [(3, 2), (5, 1)]]) [1] := by
+    decide
+  obtain ⟨T, hT, t, ht, htT⟩ := (h _ [1] 2).1 hm
+  have hc : (grun Ghost.init
+      [.insert 2 [(0, 1), (1, 2), (5, 2)], .remove 2 [(0, 1), (7, 1), (8, 1)], .insert 2 [(3, 2), (5, 1)]]).cur 2
+      = some [3, 5] := by decide
+  rw [hc] at hT
+  cases hT
+  simp at ht
+  subst ht
+  simp at htT
+
+/-- `term_exact` at full strength for every history in which each `remove` of a live document was given
+(at least) the tokens of the text of the matching insert — the caller contract of `remove`. Removes of
+absent ids (crash replay), re-inserts and purges are unrestricted. -/
+theorem term_exact_partial (ops : List Op) (hc : removesCover Ghost.init ops) (toks : List Nat) (i : Nat) :
+    i ∈ termIds (run Index.empty ops) toks ↔
+      ∃ T, (grun Ghost.init ops).cur i = some T ∧ ∃ t ∈ toks, t ∈ T := by
+  have hs := no_stale_of_cover ops Ghost.init hc (fun _ _ => rfl)
+  have := term_general ops toks i
+  simp only [] at this
+  rw [this]
+  unfold Ghost.has
+  constructor
+  · rintro ⟨hl, t, ht, he⟩
+    cases hT : (grun Ghost.init ops).cur i with
+    | none => rw [hT] at hl; cases hl
+    | some T =>
+      refine ⟨T, rfl, t, ht, ?_⟩
+      rcases he with he | he
+      · rw [hT] at he; simpa using he
+      · rw [hs i t] at he; cases he
+  · rintro ⟨T, hT, t, ht, htT⟩
+    refine ⟨by rw [hT]; rfl, t, ht, Or.inl ?_⟩
+    rw [hT]; simpa using htT
+
+/-- Without any hypothesis on the history: the answer is exact as soon as no *live* document has a
+left-over entry (in particular when an id removed with non-original text is never inserted again). -/
+theorem term_exact_of_no_visible_stale (ops : List Op)
+    (hs : ∀ i t, ((grun Ghost.init ops).cur i).isSome = true → (grun Ghost.init ops).stale i t = false)
+    (toks : List Nat) (i : Nat) :
+    i ∈ termIds (run Index.empty ops) toks ↔
+      ∃ T, (grun Ghost.init ops).cur i = some T ∧ ∃ t ∈ toks, t ∈ T := by
+  have := term_general ops toks i
+  simp only [] at this
+  rw [this]
+  unfold Ghost.has
+  constructor
+  · rintro ⟨hl, t, ht, he⟩
+    cases hT : (grun Ghost.init ops).cur i with
+    | none => rw [hT] at hl; cases hl
+    | some T =>
+      refine ⟨T, rfl, t, ht, ?_⟩
+      rcases he with he | he
+      · rw [hT] at he; simpa using he
+      · rw [hs i t hl] at he; cases he
+  · rintro ⟨T, hT, t, ht, htT⟩
+    refine ⟨by rw [hT]; rfl, t, ht, Or.inl ?_⟩
+    rw [hT]; simpa using htT
+
+/-- a history satisfying `removesCover` with a non-original-looking but covering remove, an idempotent
+replay, a re-insert and a purge -/
+example : removesCover Ghost.init
+    [.insert 1 [(0, 1), (1, 2)], .insert 2 [(1, 1)], .remove 1 [(1, 1), (0, 3), (9, 1)], .remove 1 [(0, 1)],
+     .insert 1 [(2, 1)], .purge [2]] := by
+  simp [removesCover, gstep, Ghost.init]
+
+example : termIds (run Index.empty
+    [.insert 1 [(0, 1), (1, 2)], .insert 2 [(1, 1)], .remove 1 [(1, 1), (0, 3), (9, 1)], .remove 1 [(0, 1)],
+     .insert 1 [(2, 1)], .insert 3 [(1, 1), (2, 2)]]) [1, 2] = [2, 3, 1] := by decide
+
+/-! ### retrieval: boolean queries -/
+
+/-- For every index state and every query tree (any depth, any arity, NOT anywhere — double
+negation, NOT-only conjunctions, a leading NOT, empty `And`/`Or`): the evaluator returns exactly the
+documents the AND/OR/NOT structure denotes over the term results, only live documents, each once. -/
+theorem boolean_is_denotation (s : Index) (q : Query) :
+    (∀ i, i ∈ eval s q ↔ denote s q i = true)
+    ∧ (∀ i, i ∈ eval s q → s.live i = true)
+    ∧ (s.docIds.Nodup → (eval s q).Nodup) :=
+  ⟨(kid_ok s q).pos, (kid_ok s q).live, (kid_ok s q).nodup⟩
+
+/-- after a history the result of any query is duplicate-free -/
+theorem boolean_nodup_after_history (ops : List Op) (q : Query) : (eval (run Index.empty ops) q).Nodup :=
+  (boolean_is_denotation _ q).2.2 (counters_consistent ops).2
+
+/-- double negation is the identity on results; a NOT-only conjunction is the live documents outside
+every operand -/
+theorem double_negation (s : Index) (q : Query) (i : Nat) : i ∈ eval s (.not (.not q)) ↔ i ∈ eval s q := by
+  rw [(boolean_is_denotation s _).1, (boolean_is_denotation s q).1]
+  simp only [denote]
+  constructor
+  · intro h
+    simp at h
+    rcases h.2 with h2 | h2
+    · rw [h.1] at h2; cases h2
+    · exact h2
+  · intro h
+    have hl := (boolean_is_denotation s q).2.1 i (((boolean_is_denotation s q).1 i).2 h)
+    simp [h, hl]
+
+theorem not_only_conjunction (s : Index) (a b : Query) (i : Nat) :
+    i ∈ eval s (.and [.not a, .not b]) ↔ s.live i = true ∧ i ∉ eval s a ∧ i ∉ eval s b := by
+  rw [(boolean_is_denotation s _).1, (boolean_is_denotation s a).1, (boolean_is_denotation s b).1]
+  simp [denote, denoteAll]
+  constructor
+  · rintro ⟨⟨h1, h2⟩, _, h3⟩; exact ⟨h1, h2, h3⟩
+  · rintro ⟨h1, h2, h3⟩; exact ⟨⟨h1, h2⟩, h1, h3⟩
+
+example :
+    let s := run Index.empty [.insert 1 [(0, 1), (1, 1)], .insert 2 [(1, 1)], .insert 3 [(2, 1)], .insert 4 [(0, 1), (2, 1)]]
+    eval s (.and [.not (.term [0]), .or [.term [1], .term [2]], .not (.not (.term [2]))]) = [3]
+    ∧ eval s (.and [.not (.term [0]), .not (.term [2])]) = [2]
+    ∧ eval s (.not (.and [])) = [1, 2, 3, 4] := by decide
 
 /-! ### the comparator -/
 
@@ -57,7 +212,7 @@ example :
 /-- The top-`k` list is a prefix of the top-`(k+1)` list, for every result map and every `k`
 (and being a function of the result map only, a repeated query over the same scores agrees). -/
 theorem topk_prefix (scored : List Scored) (k : Nat) : topK scored k <+: topK scored (k + 1) := by
-  unfold topK
+  rw [topK_eq, topK_eq]
   by_cases hk : k = 0
   · subst hk; simp
   · simp only [hk, if_false, Nat.add_eq_zero_iff, Nat.succ_ne_zero, and_false]
@@ -68,7 +223,7 @@ was scored, ordered by the comparator. -/
 theorem topk_sorted (scored : List Scored) (k : Nat) :
     (topK scored k).Pairwise leScored ∧ (topK scored k).length = min k scored.length
       ∧ (topK scored k).Sublist (sortScored scored) ∧ (sortScored scored).Perm scored := by
-  unfold topK
+  rw [topK_eq]
   by_cases hk : k = 0
   · subst hk; simp [sortScored_perm]
   · simp only [hk, if_false]
@@ -77,6 +232,102 @@ theorem topk_sorted (scored : List Scored) (k : Nat) :
 
 example : topK [(1, 0x3f800000#32), (2, 0x40000000#32), (3, 0x3f800000#32)] 2 = [(2, 0x40000000#32), (1, 0x3f800000#32)] := by
   decide
+
+/-- Ranking is a function of the scored *set*: any two arrangements of the same result map (whatever
+the hash-map iteration order, whatever an unstable sort or `select_nth_unstable` did on the way) that
+are sorted by the comparator are the same list, ids being unique. So repeated queries that compute the
+same scores return the same list. -/
+theorem ranking_stable (l₁ l₂ : List Scored) (hp : l₁.Perm l₂) (hd : (l₁.map (·.1)).Nodup)
+    (h1 : l₁.Pairwise leScored) (h2 : l₂.Pairwise leScored) : l₁ = l₂ :=
+  sorted_perm_eq l₁ l₂ hp (strict_of_sorted h1 hd)
+    (strict_of_sorted h2 ((hp.map (·.1)).nodup_iff.1 hd))
+
+/-- `top_k_results` = `select_nth_unstable_by(k-1)`; `truncate(k)`; `sort_unstable_by`: for **every**
+arrangement `a` the selection step may leave (a permutation of the result map whose first `k` entries
+are not after any of the rest), the returned list is the model's `topK` — so the model's choice of one
+particular arrangement (`runTopKStep`) is immaterial. -/
+theorem topk_unique (scored a : List Scored) (k : Nat) (hk : k ≠ 0) (hd : (scored.map (·.1)).Nodup)
+    (hp : a.Perm scored) (hsel : ∀ x ∈ a.take k, ∀ y ∈ a.drop k, leScored x y) :
+    sortScored (a.take k) = topK scored k := by
+  rw [topK_eq, if_neg hk]
+  exact select_truncate_sort scored a k hd hp hsel
+
+/-! ### crash prefixes of a flush -/
+
+/-- **Any interrupted flush leaves the last committed snapshot or the new one, in full.** For every
+durable state `D` and every write sequence `ws` of the shape `flush_with` produces (`flushShape`: bucket
+PUTs to objects the committed metadata does not reference, then the metadata PUT, then DELETEs of objects
+the new metadata does not reference — checked by the driver on every observed flush), loading after
+the first `k` writes gives exactly what loading `D` gives when `k` is before the commit, and exactly what
+loading after the complete sequence gives otherwise — for every `k`. -/
+theorem load_prefix_bm25 (D : Durable) (ws : List Write) (h : flushShape D ws = true) (k : Nat) :
+    load (applyAll D (ws.take k)) = if k < commitLen ws then load D else load (applyAll D ws) :=
+  load_prefix D ws h k
+
+/-- The order of effects regenerated from `flush_with` (bucket writes, then the metadata commit, then
+only in-memory publication) yields a sequence of that shape, whatever the payloads. -/
+theorem flush_order_has_shape (D : Durable) (puts : List Write) (m : Meta)
+    (h : puts.all (isPutObjOutside (committedRefs D)) = true) :
+    flushShape D (arrange Gen.Bm25Order.flushOrder puts m) = true :=
+  arranged_shape D puts m h
+
+/-- a flush that rewrites bucket 0 at generation 3 over a committed generation 2, interrupted
+anywhere: doc 1 was removed in memory; before the commit the loader still sees it, after it does not -/
+example :
+    let D : Durable := { objs := [((0, 2), { postings := [(0, [(1, 1), (2, 1)])], docs := [(1, 1), (2, 1)] })],
+                         md := some { version := 2, maxBucket := 0, manifest := [(0, 2)] } }
+    let ws : List Write := [.putObj (0, 3) { postings := [(0, [(2, 1)])], docs := [(2, 1)] },
+                            .putMeta { version := 3, maxBucket := 0, manifest := [(0, 3)] }, .delObj (0, 2)]
+    flushShape D ws = true ∧ flushStrict D ws = true ∧ commitLen ws = 2
+      ∧ (load (applyAll D (ws.take 1))).docTokens = [(1, 1), (2, 1)]
+      ∧ (load (applyAll D (ws.take 2))).docTokens = [(2, 1)]
+      ∧ (load (applyAll D (ws.take 3))).docTokens = [(2, 1)] := by decide
+
+/-- Finding `removed-doc-back-after-reload-following-stale-reinsert`, on the bytes the real `flush_with`
+wrote (decoded by the harness, corpus/C11/10; tokens delta 3, run 4, fox 5; `bucket_overload_size = 0`):
+after `ins 2 "fox run delta"; rem 2 ""; ins 2 "delta"; flush; rem 2 "delta"; flush` the in-memory index is
+empty, but the objects the committed manifest references still carry a length for document 2 (the run
+and fox buckets were not rewritten by the second remove), so `load_all` brings it back. What a
+*completed* flush leaves is therefore not always a snapshot of the in-memory state: `load_prefix_bm25`
+says every prefix loads to the old or to the new *durable* state; that the new durable state answers
+like the in-memory index is checked per flush (driver `flushcheck`, oracle), not proved — and is false
+here. -/
+theorem removed_doc_back_counterexample :
+    let s := run Index.empty [.insert 2 [(3, 1), (4, 1), (5, 1)], .remove 2 [], .insert 2 [(3, 1)], .remove 2 [(3, 1)]]
+    let D : Durable :=
+      { objs := [((0, 4), { postings := [(5, [(2, 1)])], docs := [(2, 1)] }),
+                 ((2, 4), { postings := [(4, [(2, 1)])], docs := [(2, 1)] }),
+                 ((1, 5), { postings := [], docs := [] })],
+        md := some { version := 5, maxBucket := 2, manifest := [(0, 4), (1, 5), (2, 4)] } }
+    s.docTokens = [] ∧ (load D).docTokens = [(2, 1)] ∧ termIds (load D) [5] = [2] := by decide
+
+/-! ### scores over the reals -/
+
+open Bm25Score in
+/-- For **every** parameter pair a query can carry (NaN, ±∞, negative, huge) the sanitised pair lies
+in `[0, MAX_K1] × [0, 1]`, and for such a pair every per-term contribution `idf · tf_component` of
+`score_term` is non-negative with positive denominators and bounded by `ln(N + 1) · (k1 + 1)`; a score
+(a sum of such contributions) is non-negative. Over ℝ; the f32 evaluation is measured by the harness. -/
+theorem score_nonneg_real (kp bp : Param) (N df tf dl avg : ℝ)
+    (hdf : 1 ≤ df) (hN : df ≤ N) (htf : 1 ≤ tf) (hdl : 0 ≤ dl) (havg : 1 ≤ avg) :
+    let k1 := sanitizeK1 kp
+    let b := sanitizeB bp
+    0 ≤ idf N df * tfComponent k1 b tf dl avg
+      ∧ idf N df * tfComponent k1 b tf dl avg ≤ Real.log (N + 1) * (k1 + 1)
+      ∧ 0 < df + 0.5 ∧ 0 < tf + k1 * (1 - b + b * dl / avg) := by
+  intro k1 b
+  obtain ⟨hk0, _, hb0, hb1⟩ := sanitized_range kp bp
+  have h1 := idf_nonneg hdf hN
+  have h2 := tfComponent_nonneg hk0 hb0 hb1 htf hdl havg
+  refine ⟨mul_nonneg h1 h2, ?_, by linarith, denominator_pos hk0 hb0 hb1 htf hdl havg⟩
+  exact mul_le_mul (idf_le hdf hN) (tfComponent_le hk0 hb0 hb1 htf hdl havg) h2
+    (le_trans h1 (idf_le hdf hN))
+
+theorem score_sum_nonneg (contributions : List ℝ) (h : ∀ x ∈ contributions, 0 ≤ x) : 0 ≤ contributions.sum :=
+  Bm25Score.sum_nonneg_of_all contributions h
+
+example : Bm25Score.sanitizeK1 .nan = 1.2 ∧ Bm25Score.sanitizeB .negInf = 0.75 := by
+  constructor <;> norm_num [Bm25Score.sanitizeK1, Bm25Score.sanitizeB, Gen.Bm25Order.defaultK1Milli, Gen.Bm25Order.defaultBMilli]
 
 end Bm25
 end AndaVerif
